@@ -25,18 +25,18 @@ package bcl
 //@   loop 1 invariant 0 - 1 <= rangeindex
 //
 //@ func printPStats
-//@   assert [C19] tokens_line_shows_tokens: at Fprintf#1: $w == w && len($a) == 1 && $a[0] == VInt(pstats.tokens)
-//@   assert [C19] localmax_line_shows_localmax: at Fprintf#2: $w == w && len($a) == 1 && $a[0] == VInt(pstats.localMax)
-//@   assert [C19] depthmax_line_shows_depthmax: at Fprintf#3: $w == w && len($a) == 1 && $a[0] == VInt(pstats.depthMax)
-//@   assert [C19] constants_line_shows_constants: at Fprintf#4: $w == w && len($a) == 1 && $a[0] == VInt(pstats.constants)
-//@   assert [C19] opscreated_line_shows_opscreated: at Fprintf#5: $w == w && len($a) == 1 && $a[0] == VInt(pstats.opsCreated)
-//@   assert [C19] codebytes_line_shows_codebytes: at Fprintf#6: $w == w && len($a) == 1 && $a[0] == VInt(pstats.codeBytes)
+//@   assert [C19] tokens_line_shows_tokens: at Fprintf#1: $w == w && len($a) >= 1 && $a[len($a)-1] == VInt(pstats.tokens)
+//@   assert [C19] localmax_line_shows_localmax: at Fprintf#2: $w == w && len($a) >= 1 && $a[len($a)-1] == VInt(pstats.localMax)
+//@   assert [C19] depthmax_line_shows_depthmax: at Fprintf#3: $w == w && len($a) >= 1 && $a[len($a)-1] == VInt(pstats.depthMax)
+//@   assert [C19] constants_line_shows_constants: at Fprintf#4: $w == w && len($a) >= 1 && $a[len($a)-1] == VInt(pstats.constants)
+//@   assert [C19] opscreated_line_shows_opscreated: at Fprintf#5: $w == w && len($a) >= 1 && $a[len($a)-1] == VInt(pstats.opsCreated)
+//@   assert [C19] codebytes_line_shows_codebytes: at Fprintf#6: $w == w && len($a) >= 1 && $a[len($a)-1] == VInt(pstats.codeBytes)
 //@   modifies nothing
 //@ func printXStats
-//@   assert [C19] tosmax_line_shows_tosmax: at Fprintf#1: $w == w && len($a) == 1 && $a[0] == VInt(xstats.tosMax)
-//@   assert [C19] blocktosmax_line_shows_blocktosmax: at Fprintf#2: $w == w && len($a) == 1 && $a[0] == VInt(xstats.blockTosMax)
-//@   assert [C19] opsread_line_shows_the_number_of_instructions_executed: at Fprintf#3: $w == w && len($a) == 1 && $a[0] == VInt(xstats.opsRead)
-//@   assert [C19] pcfinal_line_shows_pcfinal: at Fprintf#4: $w == w && len($a) == 1 && $a[0] == VInt(xstats.pcFinal)
+//@   assert [C19] tosmax_line_shows_tosmax: at Fprintf#1: $w == w && len($a) >= 1 && $a[len($a)-1] == VInt(xstats.tosMax)
+//@   assert [C19] blocktosmax_line_shows_blocktosmax: at Fprintf#2: $w == w && len($a) >= 1 && $a[len($a)-1] == VInt(xstats.blockTosMax)
+//@   assert [C19] opsread_line_shows_the_number_of_instructions_executed: at Fprintf#3: $w == w && len($a) >= 1 && $a[len($a)-1] == VInt(xstats.opsRead)
+//@   assert [C19] pcfinal_line_shows_pcfinal: at Fprintf#4: $w == w && len($a) >= 1 && $a[len($a)-1] == VInt(xstats.pcFinal)
 //@   modifies nothing
 
 // ---------------------------------------------------------------------------
